@@ -52,6 +52,12 @@ LEVEL_TEXT += (
     "the single DOF of a shared edge / facet sits at the entity's "
     "centroid; Element.condensed shifts doflocs, dofnames and the "
     "components like its gbasis.")
+LEVEL_TEXT += (
+    " Added in the third round (review of the fix commits, DESIGN.md "
+    "9.6): "
+    "ElementDG lists one name per local function in the local basis "
+    "order; the outer part of a condensed vector element wraps the "
+    "outer part of its element.")
 LEVEL_NOTE = (
     "Trusted: numpy arange/reshape/vstack semantics. Not decided: "
     "properties of concrete meshes (uniqueness of entities is C11), "
